@@ -48,16 +48,24 @@ impl DbCfg {
             _ => 1024 * 1024,
         };
         let compression = t.bool();
-        let buckets = *t.pick(&[1u16, 2, 3, 4]);
+        let buckets = [1u16, 2, 3, 4][t.weighted(&[5, 3, 1, 2])];
         let writer_threads = {
             let divs: Vec<u16> = (1..=buckets).filter(|d| buckets % d == 0).collect();
             *t.pick(&divs)
         };
         let partitions = buckets * (*t.pick(&[1u16, 2, 3]));
-        let sync_interval_ms = *t.pick(&[0u64, 1, 2, 5]);
-        let sync_idle_ms = sync_interval_ms.max(*t.pick(&[0u64, 5, 20]));
-        let max_batch = *t.pick(&[50usize, 1, 3, 1000]);
-        let min_sync_bytes = *t.pick(&[4096usize, 1, 64 * 1024, usize::MAX / 2]);
+        // "lazy" profile: nothing but the timer triggers a sync, so acknowledgements really wait
+        let lazy = t.chance(2, 5);
+        let (sync_interval_ms, sync_idle_ms, max_batch, min_sync_bytes) = if lazy {
+            let i = *t.pick(&[2u64, 1, 5]);
+            (i, i.max(*t.pick(&[0u64, 5, 20])), 1000usize, usize::MAX / 2)
+        } else {
+            let sync_interval_ms = *t.pick(&[0u64, 1, 2, 5]);
+            let sync_idle_ms = sync_interval_ms.max(*t.pick(&[0u64, 5, 20]));
+            let max_batch = *t.pick(&[50usize, 1, 3, 1000]);
+            let min_sync_bytes = *t.pick(&[4096usize, 1, 64 * 1024, usize::MAX / 2]);
+            (sync_interval_ms, sync_idle_ms, max_batch, min_sync_bytes)
+        };
         DbCfg {
             segment_size,
             compression,
